@@ -697,7 +697,11 @@ def check_property(prop, tier, only=None, keep=False, seed=0):
                             rp[prof] = run_replay(bins[prof], rec["harness"], fl["vals"])
                         replays_done += 1
                         fl["replay"] = rp
-                        fl["reproduced"] = rp["dev"]["outcome"] in ("panic", "timeout") or rp["release"]["outcome"] in ("panic", "timeout")
+                        if fl.get("expect_return"):
+                            # must-panic harness: the counterexample is an input for which the call RETURNS
+                            fl["reproduced"] = rp["dev"]["outcome"] == "ok" and rp["release"]["outcome"] == "ok"
+                        else:
+                            fl["reproduced"] = rp["dev"]["outcome"] in ("panic", "timeout") or rp["release"]["outcome"] in ("panic", "timeout")
         except Exception as e:
             log(f"[{prop}] native replay failed: {e}")
         for rec in records:
@@ -712,6 +716,7 @@ def check_property(prop, tier, only=None, keep=False, seed=0):
                 with open(path, "w") as f:
                     json.dump({"property": prop, "harness": rec["harness"], "features": rec.get("features", features), "hooks": hooks_on,
                                "label": fl["description"], "location": fl["location"], "vals": fl["vals"],
+                               "expect_return": bool(fl.get("expect_return")),
                                "replay": fl["replay"],
                                "all_failed_labels": [x["description"] for x in rec["failures"]]}, f, indent=1)
                 violations.append((rec, fl, path))
@@ -754,6 +759,7 @@ def classify(rec, results, prop, known):
     failures, covers_sat, covers_unsat, unwind_fail, unsupported = [], [], [], [], []
     labels_ok = set()
     labels_all = set()
+    cover_ids = {}
     for r in results:
         cls = prop_class(r)
         desc = clean_desc(r.get("description", ""))
@@ -763,6 +769,7 @@ def classify(rec, results, prop, known):
         checks += 1
         if cls == "cover":
             (covers_sat if st == "FAILURE" else covers_unsat).append(desc)
+            cover_ids[desc] = r.get("property")
             continue
         if cls == "unwind":
             if st != "SUCCESS":
@@ -813,8 +820,8 @@ def classify(rec, results, prop, known):
         lib_fail = [f for f in failures if not re.match(r"^C\d\d\.", f["description"])]
         lab_fail = [f for f in failures if re.match(r"^C\d\d\.", f["description"])]
         if after:
-            failures = lab_fail + [{"description": f"{prop}.must_panic_but_returned", "property": None, "class": "cover",
-                                    "location": rec["harness"], "synthetic": True}]
+            failures = lab_fail + [{"description": f"{prop}.must_panic_but_returned", "property": cover_ids.get(after[0]), "class": "cover",
+                                    "location": rec["harness"], "synthetic": True, "expect_return": True}]
         elif not lib_fail:
             rec["verdict"] = "INCONCLUSIVE"
             rec["reason"] = "must-panic harness: no panic and no reachable continuation (vacuous)"
@@ -926,7 +933,10 @@ def do_replay(path):
         for prof in ("dev", "release"):
             out[prof] = run_replay(bins[prof], rp["harness"], rp["vals"])
     print(json.dumps({"harness": rp["harness"], "label": rp["label"], "replay": out}, indent=1))
-    bad = any(out[p]["outcome"] in ("panic", "timeout") for p in out)
+    if rp.get("expect_return"):
+        bad = all(out[p]["outcome"] == "ok" for p in out)  # must-panic harness: returning IS the violation
+    else:
+        bad = any(out[p]["outcome"] in ("panic", "timeout") for p in out)
     if bad:
         print(f"REPRODUCED property={rp['property']} harness={rp['harness']}")
         return 1
